@@ -60,7 +60,8 @@ func continueAuth(ctx oidc.Context, callbackID string) error {
 	if oauthErr := authenticate(ctx, session); oauthErr != nil {
 		client, err := ctx.Client(session.ClientID)
 		if err != nil {
-			return err
+			return goidc.WrapError(goidc.ErrorCodeInvalidRequest,
+				"could not load the client", err)
 		}
 		return redirectError(ctx, oauthErr, client)
 	}
